@@ -110,7 +110,7 @@ func failureProblems(res *run.Result, exp *ref.Result, f *ref.Task, failProc str
 func c09(args []string) {
 	c := chk.New("C09", "fault_enumeration", args)
 	c.Build(false)
-	c.Rule("generated graphs x every chosen task as the failing one x failure kind {exit non-zero before/mid/after writing, killed by SIGKILL / SIGSEGV, the task's shell killed by SIGKILL / SIGTERM after writing, declared output not produced, output written under another name; Go-function variants; task cannot be formed: empty parameter value, missing tag, invalid output path (space, colon, empty, letters / digits outside ASCII)} while sibling tasks are running; oracle = exit status != 0, no completion report, no final path of the failing task exists, no start event of any transitive dependant; plus output paths that cannot be finalized: an absolute output area on another file system (symlink to /dev/shm), where the commands succeed but the rename out of the temp directory fails - the program must exit non-zero, must not report completion, and no downstream task may run; twelve tasks failing at the same moment with long error reports (each of them is judged); Go-function tasks also fail by panicking, also those that write through task.OutIP(port).Write() to a port declared through SetOut only; a command line that is a list whose middle element fails after the outputs were written, or a multi-line script whose last line returns non-zero; a producer with only streamed outputs failing 0.5 s after it closed its streams. distinct_nontrivial = distinct (graph shape, failing task, failure kind) in which the failing command really ran (or, for unformable tasks, the workflow was started) and >= 1 sibling task executed")
+	c.Rule("generated graphs x every chosen task as the failing one x failure kind {exit non-zero before/mid/after writing, killed by SIGKILL / SIGSEGV, the task's shell killed by SIGKILL / SIGTERM after writing, declared output not produced, output written under another name; Go-function variants; task cannot be formed: empty parameter value, missing tag, invalid output path (space, colon, empty, letters / digits outside ASCII)} while sibling tasks are running; oracle = exit status != 0, no completion report, no final path of the failing task exists, no start event of any transitive dependant; plus output paths that cannot be finalized: an absolute output area on another file system (symlink to /dev/shm), where the commands succeed but the rename out of the temp directory fails - the program must exit non-zero, must not report completion, and no downstream task may run; twelve tasks failing at the same moment with long error reports (each of them is judged); Go-function tasks also fail by panicking, also those that write through task.OutIP(port).Write() to a port declared through SetOut only, and Go functions that run a failing tool through the library's ExecCmd helper; a command line that is a list whose middle element fails after the outputs were written, or a multi-line script whose last line returns non-zero; a producer with only streamed outputs failing 0.5 s after it closed its streams. distinct_nontrivial = distinct (graph shape, failing task, failure kind) in which the failing command really ran (or, for unformable tasks, the workflow was started) and >= 1 sibling task executed")
 	c.Assume("siblings that were already running may finalize their own outputs (os.Exit does not wait) - legal", "orphaned sibling commands are killed by the runner after the workflow process has exited")
 	rng := c.Rand("c09")
 	type job struct {
@@ -371,6 +371,24 @@ func c09(args []string) {
 			}
 			mode := []string{"exit-after-write", "panic-after-write"}[(k/2)%2]
 			jobs = append(jobs, &job{s: s, exp: exp, f: f, mode: mode, bh: vproto.Behaviours{f.Key: {"fail": mode}}, cfg: Cfg{Buf: []int{1, 128}[k%2], Procs: []int{2, 4}[k%2], NoHooks: k%4 >= 2}, idx: -1})
+		}
+	}
+	// a Go function that runs its tool through the library's ExecCmd helper; the tool fails in the middle of / after writing
+	{
+		s := &spec.Spec{Name: "execcmdfail", MaxTasks: 3, Sources: map[string]string{"m0.txt": "m0\n", "m1.txt": "m1\n"}}
+		in := []spec.PortDecl{{Name: "in"}}
+		s.Procs = append(s.Procs, &spec.Proc{Name: "src", Kind: spec.KFileSource, Files: []string{"m0.txt", "m1.txt"}},
+			&spec.Proc{Name: "X", Kind: spec.KGoFunc, ExecCmd: true, Cmd: spec.BuildCmd("X", in, []spec.PortDecl{{Name: "out"}}, nil, nil, nil)},
+			&spec.Proc{Name: "D", Kind: spec.KCmd, Cmd: spec.BuildCmd("D", in, []spec.PortDecl{{Name: "out"}}, nil, nil, nil)})
+		s.Conns = append(s.Conns, &spec.Conn{From: "src.out", To: "X.in"}, &spec.Conn{From: "X.out", To: "D.in"})
+		exp := evalRef(s, nil)
+		if exp.Err != "" {
+			c.Broken("reference cannot evaluate the ExecCmd shape: " + exp.Err)
+		}
+		for k := 0; k < c.Pick(4, 12); k++ {
+			f := exp.ByProc["X"][k%2]
+			mode := []string{"exit-mid-write", "exit-after-write", "sigkill-self"}[(k/2)%3]
+			jobs = append(jobs, &job{s: s, exp: exp, f: f, mode: mode, bh: vproto.Behaviours{f.Key: {"fail": mode, "sleep": "20"}}, cfg: Cfg{Buf: 128, Procs: []int{2, 4}[k%2], NoHooks: k%4 >= 2}, idx: -1})
 		}
 	}
 	// a producer whose outputs are all streamed fails well after it closed its streams (it verifies something, waits
